@@ -257,15 +257,16 @@ def _run(ctx, case, link, prefix):
             else:
                 tx.__enter__()
             ctx.count("with_block_boundaries_before_call")
-        elif before and before.startswith("rx_phase") and mode == "ackpl" and case.get("kind", "full") == "full":
+        elif before and before.startswith("rx_phase") and mode == "ackpl":
             # a receiving phase in which ACK payloads were loaded but not consumed, left by a plain
             # role change, through power-down, or through the end of a `with` block
             tx.listen = True
             tx.load_ack(b"leftover-ack-1", 1)
-            tx.load_ack(b"leftover-ack-0", 0)
+            if case["seed"] % 3:  # one, or two, payloads are left over
+                tx.load_ack(b"leftover-ack-0", 0)
             if before == "rx_phase_power":
                 tx.power = False
-            elif before == "rx_phase_with":
+            elif before == "rx_phase_with" and case.get("kind", "full") == "full":
                 tx.__exit__(None, None, None)
                 tx.__enter__()
             tx.listen = False
